@@ -17,6 +17,17 @@ THIS ROUND: earlier rounds already covered simple local rewrites (if/else <-> sw
   - introduce a small local type or a named constant for a repeated literal; hoist repeated field reads into locals; replace a boolean flag variable by structured control flow or the reverse;
   - change the error-handling shape (wrap in a helper that returns early, named results with a single exit, sentinel errors) without changing which errors are returned when.
 Produce TWO edits (A and B) this round instead of three, each 15-60 changed lines, each using a different one of these structural kinds."""
+if rnd == "4":
+    extra = """
+
+THIS ROUND: earlier rounds covered local rewrites and structural refactorings. This round is about ADDITIVE and HOUSEKEEPING changes a maintainer makes over time, which leave the behaviour described by the property untouched but add or move code around it:
+  - add observability: an extra log line (any level), a metrics counter / gauge / MeasureSince, a debug-only field; wrap returned errors with more context (fmt.Errorf("...: %w", err)) where callers only test err != nil;
+  - add a new Config option that is OFF / zero by default and, when off, takes exactly the old path (the new branch may do something harmless like extra logging or an extra sanity check that returns the same result);
+  - add a new exported read-only accessor or a String()/GoString() method, a new unexported helper used in one place, a new field on an internal struct that is written but only read by the new accessor / log line;
+  - add a defensive check that can never fire on reachable states (nil check of something never nil, bounds check implied by an earlier one) with an early return or a log line;
+  - modernise idioms where exactly equivalent: range-over-int loops, clear(), slices/maps helpers, strings.Cut, any for interface{}, atomic types' methods, time.Since/Until; replace magic numbers by named constants; replace an anonymous struct/closure by a named one;
+  - move a function to another file of the package, reorder functions/methods within a file, rename an unexported helper or type consistently, group related var/const declarations, rewrite comments.
+Produce TWO edits (A and B) this round instead of three, each 10-60 changed lines, using two different kinds from this list, and each touching the functions this property is anchored in (an additive change placed INSIDE or right next to the anchored code is what is wanted, not one in an unrelated corner)."""
 print(f"""You are working on a scratch git worktree of the Go library hashicorp/memberlist (SWIM/Lifeguard gossip membership) at {wt}. Work ONLY inside {wt}. Never touch /repo or /verif, never read anything under /verif, and do not commit anything. Do NOT use `git stash` (the stash is shared between worktrees; other agents work in sibling worktrees).
 
 Environment (the sandbox has NO network; run this at the start of every shell command because the environment does not persist):
